@@ -5,7 +5,7 @@ import common, gen, pool, drv
 
 THEOREMS = ["Enc.encoding_sound_direct", "Enc.core_realizesE", "Enc.step_soundE", "Enc.core_soundE", "Enc.notEmpty_of_nodup", "Enc.consume_produceP", "Enc.store_exactly_once", "Enc.store_store_order", "Enc.store_load_order", "Enc.load_store_order", "Enc.l_exactly_once", "Enc.l_order",
             "Enc.raw_sat_of_built", "Enc.thetaInj_int", "Enc.thetaInj_uf", "Enc.step_sound", "Enc.core_sound", "Enc.core_sound_built", "Enc.runSym_of_runVal", "Enc.core_realizes", "Enc.inj_of_nodup",
-            "Enc.inj_uf", "Enc.inj_stackVars", "Enc.inj_int", "Formula.build_eval"]
+            "Enc.inj_uf", "Enc.inj_stackVars", "Enc.inj_int", "Formula.build_eval", "Spec.realizes_exec", "Spec.realized_sequence_obsEq"]
 ENC_OPTION_SETS = [[], ["-term-encoding", "int"], ["-term-encoding", "stack_vars"], ["-term-encoding", "uninterpreted_int"],
                    ["-memory-encoding", "l_vars"], ["-push-basic", "-term-encoding", "int"], ["-pop-uninterpreted"], ["-order-bounds"],
                    ["-order-conflicts"], ["-at-most"], ["-no-output-before-pop"], ["-size"], ["-storage"], ["-no-simplification"],
@@ -190,7 +190,7 @@ def enc_correspondence(tier, rng, c, violations, soft_out=None):
 def run(tier):
     sd = common.seed()
     rng = random.Random(sd * 3571 + 47)
-    po = common.proof_obligations("GasolVerif.Proofs.EncodingCapstone", THEOREMS)
+    po = common.proof_obligations("GasolVerif.Proofs.EncodingCapstone,GasolVerif.Proofs.RealizeSound", THEOREMS)
     violations = [{"kind": "broken-proof-obligation", "what": b, "no_failing_input": True, "input": b} for b in po["broken"]]
     c = Counter()
     enc_correspondence(tier, random.Random(sd * 977 + 5), c, violations)
@@ -248,6 +248,21 @@ def run(tier):
                                "what": "a %s of the hard constraints for %s with %s decodes to %s: %s" % (kind, " ".join(e["plain"]), t["opts"], m, o[3:])})
         else:
             raise common.MachineryError("driver: " + o)
+    # the decoded sequences against the EVM (theorems realizes_exec / realized_sequence_obsEq): every premise evaluated per model
+    from props import c02
+    reqs2 = []
+    for o, (t, e, kind, m) in zip(outs, meta):
+        if o.startswith("ok") and "tokens" in e and not any(x.startswith("PUSH#") for x in m):
+            edges = [tuple(d) for d in e["deps"]] + c02.data_edges(e)
+            Ls = c02.linear_extensions(e["effects"], edges, random.Random(1), 0)
+            if Ls:
+                reqs2.append("REALEXEC\t%s\t%s\t%s\t%s" % (e["tokens"], "\t".join(e["spec"]), ",".join(m), ",".join(Ls[0])))
+    for o in drv.batch(reqs2):
+        status = o.partition("\t")[0]
+        if status.startswith("error"):
+            raise common.MachineryError("driver: " + o)
+        key = status.split(":")[0]
+        c["semantic:" + (status if key in ("partial", "exec-only", "no") else key)] += 1
     cov = {"programs": c["instances"], "disagreements_checked": c["sequences-checked"], "evaluations": c["sequences-checked"],
            "distinct_nontrivial": c["realizing-model"] + c["realizing-optimum"], "obligations": po["obligations"], "discharged": po["discharged"],
            "rule": "small generated blocks (init_progr_len <= 6/7) x a covering family of %d encoder option sets; the text the real encoder "
